@@ -20,6 +20,24 @@ CLAIMED = {
                 "ncmpii_error_mpi2nc is non-zero (re-verified by rule R1.map).",
         "design_ref": "DESIGN.md section 3 / C11, rule R1",
     },
+    "C09": {
+        "technique": "exhaustive cell-wise decision of the generated conversion primitives: comparison flip points "
+                     "located by bisection under C conversion semantics (constants from clang's evaluator), each "
+                     "cell compared with an independent type-range model; plus AST table-agreement rules on the "
+                     "type-dispatch chains and switches",
+        "text": "Decides for ALL values of every source type of every one of the ~250 generated conversion steps "
+                "(ncmpix_{put,get}_NC_<X>_<I> and the inlined NC_BYTE/NC_UBYTE loop steps) that NC_ERANGE is returned "
+                "exactly when the value is not representable, that the C conversion result is stored otherwise, and "
+                "that the fill (user fill pointer, else NC_FILL_<X>) replaces an out-of-range element; that the "
+                "N-element loops keep the first error and convert every element; that the itype/xtype dispatch "
+                "calls the name-matched converter, is total, applies the NC_BYTE/uchar exemption exactly for "
+                "format < 5, and that ncmpio_pack_xbuf passes the variable's own fill value. The code's behaviour is "
+                "piecewise constant between compared constants, so this is exhaustive, not sampled. Known deviations "
+                "(NaN, +-Inf, 2^63/2^64) are listed findings.",
+        "note": "Analysed build only (LP64, little endian, ERANGE_FILL). Same-type fast paths (memcpy/byte swap) are "
+                "not value-checked. 'Representable' is defined by the checker from the netCDF type table and IEEE-754.",
+        "design_ref": "DESIGN.md section 3 / C09, rules R8, R10",
+    },
 }
 
 NA_REASON = {
